@@ -132,6 +132,9 @@ func (c *Compactor) Compact() (*CompactionResult, error) {
 
 	// Create temp file for new data (always V3 format with name in header area)
 	tempPath := c.filePath + ".compact"
+	// A leftover temp file from an earlier, interrupted compaction must never be reused:
+	// NewFileWriterWithName would open it and append to its stale content.
+	_ = os.Remove(tempPath)
 	writer, err := NewFileWriterWithName(tempPath, c.maxBlockSize, swampName)
 	if err != nil {
 		result.Error = err
